@@ -231,6 +231,23 @@ def unit_cmds(u, b, out):
         b.inc + [os.path.join(b.bin, 'low_trk.gb' if trk else 'low.gb'), os.path.join(b.bin, 'vf_std_trk.gb' if trk else 'vf_std.gb'),
                  src, '--function', u['harness'], '-o', ugb]
     gi = ['goto-instrument']
+    if u.get('mode') == 'bmc':
+        # bounded stand-in: no contract instrumentation; callees are replaced by abstract stub functions
+        # (their contracts in executable form) and the harness asserts the postconditions
+        for k, v in (u.get('stubs') or {}).items():
+            gi += ['--replace-calls', '%s:%s' % (k, v)]
+        gi += [ugb, igb]
+        cb = ['cbmc', igb, '--json-ui'] + NO_DEFAULTS + STD_CHECKS
+        cb += ['--unwind', str(u.get('unwind', 5))]
+        cb += ['--unwinding-assertions'] if not u.get('partial_loops') else ['--no-unwinding-assertions']
+        for k, v in (u.get('unwindset') or {}).items():
+            cb += ['--unwindset', '%s:%d' % (k, v)]
+        if u.get('object_bits'):
+            cb += ['--object-bits', str(u['object_bits'])]
+        sat = u.get('sat', 'minisat')
+        if sat == 'kissat':
+            cb += ['--external-sat-solver', 'kissat']
+        return cc, gi, cb, igb
     if u.get('mode', 'dfcc') == 'dfcc':
         gi += ['--dfcc', u['harness']]
     for e in u.get('enforce', []):
@@ -372,7 +389,10 @@ def run_unit(u, b, keep=None, trace=False, use_cache=True):
             res['error'] = res['error'] or 'cbmc: solver error (out of memory / resource limit) - verdicts incomplete'
         # vacuity: the canary must be reachable (i.e. reported FAILED)
         can = [o for o in res['obligations'] if o['cls'] == 'vacuity']
-        if not can or any(o['status'] != 'FAILURE' for o in can):
+        real_fail = any(o['status'] == 'FAILURE' and o['cls'] != 'vacuity' for o in res['obligations'])
+        # (a source file may hold several harnesses: canaries of harnesses that are not this unit's entry are unreachable)
+        reached = [o for o in can if o['status'] == 'FAILURE' or (o['status'] == 'UNKNOWN' and real_fail)]
+        if not reached:
             res['error'] = res['error'] or 'vacuity canary not reached: the unit\'s preconditions are unsatisfiable or the ' \
                                            'function cannot return'
         if any(o['cls'] == 'unwind' and o['status'] == 'FAILURE' for o in res['obligations']):
